@@ -4,6 +4,7 @@ package checks
 // manifests are rejected with one error per offending entry.
 
 import (
+	"encoding/json"
 	"errors"
 	"fmt"
 	"regexp"
@@ -120,6 +121,9 @@ type c15Input struct {
 	// Alias: the contents list (or one of its items) is written as a YAML alias of an anchored node. The property does
 	// not say whether such a manifest is accepted; if it is, every denoted entry must be returned and be safe.
 	Alias bool `json:"alias,omitempty"`
+	// Earlier: a manifest that is transformed first; the value returned for it is kept and must still read the same
+	// after the calls made for this manifest (results are values: a later call does not change an earlier result)
+	Earlier string `json:"earlier_manifest,omitempty"`
 }
 
 var c15ReErr = regexp.MustCompile(`^validation error at line=(\d+), column=(\d+): (.*)$`)
@@ -149,6 +153,22 @@ func c15Errors(err error) ([]c15Err, bool) {
 // c15Check evaluates one manifest. It returns the violation ("" = held) and the indices of the
 // entries the library did not reject (for the second phase).
 func c15Check(in c15Input) (string, []int) {
+	if in.Earlier != "" {
+		held, herr := transformer.TransformModFile(in.Earlier)
+		if herr == nil && held != nil {
+			snap, _ := json.Marshal(held)
+			e2 := in
+			e2.Earlier = ""
+			msg, idx := c15Check(e2)
+			for i := 0; i < 3; i++ {
+				_, _ = transformer.TransformModFile(in.Text)
+			}
+			if now, _ := json.Marshal(held); string(now) != string(snap) && msg == "" {
+				return fmt.Sprintf("the result returned for an earlier manifest was changed by later calls: it read %s, now it reads %s", snap, now), nil
+			}
+			return msg, idx
+		}
+	}
 	mf, err := transformer.TransformModFile(in.Text)
 	var refRejected []int
 	for i, e := range in.Entries {
@@ -409,13 +429,27 @@ var c15Exts = []string{".fga", ".fga", ".fga", ".fga", "%2Efga", ".FGA", ".fg", 
 
 func c15GenPath(t *rapid.T) string {
 	n := rapid.IntRange(0, 4).Draw(t, "nparts")
+	if rapid.IntRange(0, 7).Draw(t, "longPath") == 0 {
+		// entries around and beyond 64 / 128 / 256 bytes
+		n = rapid.SampledFrom([]int{10, 12, 16, 20, 24, 32, 40, 64}).Draw(t, "npartsLong")
+	}
 	s := rapid.SampledFrom([]string{"", "", "", "/", "\\", "%2f", "%5C", "./", "../", "..\\"}).Draw(t, "lead")
 	if rapid.IntRange(0, 5).Draw(t, "blankLead") == 0 {
 		// blanks and control characters (escaped) in front of everything: whatever is cut off later must not turn a
 		// checked value into an unchecked one
 		s = rapid.SampledFrom([]string{"%0A", "%0d%0a", "%09", "%20", "+", "%00", "%0B", "%0C", "%C2%A0", " "}).Draw(t, "blank") + s
 	}
+	long := n >= 10
 	for i := 0; i < n; i++ {
+		if long && rapid.IntRange(0, 19).Draw(t, "riskyPart") != 0 {
+			// long entries consist mostly of harmless segments (otherwise some segment always gets them rejected and the
+			// rules are never seen at work on a long entry); the separators stay mixed
+			s += rapid.SampledFrom([]string{"a", "core", "dir", "team1", "sub-dir", "x_y", "v2", "é"}).Draw(t, "plainPart")
+			if i < n-1 {
+				s += rapid.SampledFrom([]string{"/", "/", "/", "%5c", "%5C", "%2f", "%2F", "\\"}).Draw(t, "plainSep")
+			}
+			continue
+		}
 		s += rapid.SampledFrom(c15PathParts).Draw(t, "part")
 		if i < n-1 {
 			s += rapid.SampledFrom(c15Seps).Draw(t, "sep")
@@ -704,6 +738,9 @@ const c15Rule = "exhaustive: every path over the 15-symbol alphabet {. / \\ % 2 
 	"offending entry => rejected with an error at that entry's position and at least one error per offending entry. Over-rejection is allowed. Non-trivial = path with an escape " +
 	"or backslash, or a non-plain YAML style; distinct by manifest text."
 
+// the last accepted manifest of this process (its result is held across the calls of a later case)
+var c15LastAccepted string
+
 func TestC15(t *testing.T) {
 	rec := ev.New("C15", c15Rule)
 	defer func() {
@@ -757,6 +794,9 @@ func TestC15(t *testing.T) {
 		t.Run("manifests", rapid.MakeCheck(func(rt *rapid.T) {
 			noiseCall(rt) // one case in three is preceded by an unrelated, mostly failing call (see noise_test.go)
 			in := c15GenManifest(rt)
+			if c15LastAccepted != "" && rapid.Bool().Draw(rt, "holdEarlier") {
+				in.Earlier = c15LastAccepted
+			}
 			nt := false
 			cls := []string{}
 			for _, e := range in.Entries {
@@ -782,6 +822,7 @@ func TestC15(t *testing.T) {
 			}
 			_, err := transformer.TransformModFile(in.Text)
 			if err == nil {
+				c15LastAccepted = in.Text
 				cls = append(cls, "verdict:accepted")
 			} else {
 				cls = append(cls, "verdict:rejected")
